@@ -28,6 +28,8 @@ type checker struct {
 	pf      *shards // protobuf: values, event trees, collector
 	vf      *shards // Serializer: options + value -> the calls the consumer received
 	lf      *shards // string lexemes: string -> json.Marshal, the bytes the streamer wrote, their decoding
+	tf      *shards // whole texts as bytes: the byte-level writer and the tokenizer of Model/JsonText.v
+	nText   int
 	nViolL  int
 	nViolJ  int
 	nViolP  int
@@ -42,6 +44,7 @@ type checker struct {
 // nor more than maxBytesPerFile of terms (coqc reads about 30 kB of literal terms per second)
 const maxCasesPerFile = 1500
 const maxBytesPerFile = 600000
+const textStride = 3 // one in three Coq cases of the JSON families also goes to cases_text as bytes
 
 type shards struct {
 	name  string
@@ -51,7 +54,7 @@ type shards struct {
 	bytes int // of the last file
 }
 
-var caseImports = []string{"Model.Base", "Model.Json", "Model.Pb", "Model.PbMem", "Model.JsonSer", "Model.JsonStr", "Corr.CorrC11"}
+var caseImports = []string{"Model.Base", "Model.Json", "Model.Pb", "Model.PbMem", "Model.JsonSer", "Model.JsonStr", "Model.JsonText", "Corr.CorrC11"}
 
 func (s *shards) Add(term string, input interface{}) {
 	if len(s.files) == 0 || len(s.files[len(s.files)-1].Cases) >= maxCasesPerFile || s.bytes+len(term) > maxBytesPerFile {
@@ -93,11 +96,13 @@ func newChecker(cfg *lib.Config, res *lib.Result) *checker {
 			"ser_model": "ser_mismatches cases"}},
 		lf: &shards{name: "cases_str", typ: "lcase", obl: map[string]string{
 			"str_lexemes": "str_lexeme_mismatches cases"}},
+		tf: &shards{name: "cases_text", typ: "tcase", obl: map[string]string{
+			"text_model": "text_mismatches cases"}},
 	}
 }
 
 func (c *checker) finish() {
-	for _, s := range []*shards{c.jf, c.rf, c.sf, c.pf, c.vf, c.lf} {
+	for _, s := range []*shards{c.jf, c.rf, c.sf, c.pf, c.vf, c.lf, c.tf} {
 		c.res.CorrFiles = append(c.res.CorrFiles, s.WriteAll(c.cfg.Out)...)
 	}
 }
@@ -256,6 +261,11 @@ func (c *checker) jsonEvent(e *Ev, family string, toCoq bool) {
 			rout = gRout(r.evs, r.rOutcome)
 		}
 		c.jf.Add(fmt.Sprintf("(%s, %s, %s, %s)", e.gallina(), gWout(r.out, r.wOutcome), lib.GBool(r.valid), rout), input)
+		// the same run at the level of bytes (every textStride-th case that goes to Coq, every failing one, every replay)
+		c.nText++
+		if len(r.out) <= maxTextBytes && (c.nText%textStride == 0 || r.clause != "" || family == "replay" || family == "corpus") {
+			c.textWritten(e, r.out, r.wOutcome, input)
+		}
 	}
 	c.seen++
 	if c.seen%4001 == 7 {
@@ -276,10 +286,12 @@ func (c *checker) jsonText(b []byte, family string, toCoq bool) {
 		rout = gRout(evs, ro)
 		c.say("  JsonToData  : %s (outcome %q %s)", evsText(evs), ro, rd)
 	}
+	input := map[string]interface{}{"kind": "json-text", "hex": hex.EncodeToString(b)}
 	if toCoq {
-		c.rf.Add(fmt.Sprintf("(%s, %s, %s)", gToks(tokenize(b)), lib.GBool(valid), rout),
-			map[string]interface{}{"kind": "json-text", "hex": hex.EncodeToString(b)})
+		c.rf.Add(fmt.Sprintf("(%s, %s, %s)", gToks(tokenize(b)), lib.GBool(valid), rout), input)
 	}
+	c.nText++
+	c.textAny(b, valid, toCoq && len(b) <= maxTextBytes && (c.nText%textStride == 0 || family == "replay" || family == "corpus"), input)
 }
 
 // ------------------------------------------------------------------------------------------------
